@@ -38,6 +38,7 @@ type World struct {
 	impls     map[string][]types.Type
 	namedTypes []types.Type
 	Orphaned  []string
+	opaqueRS       map[string]*readSet
 	globalFacts    map[string][]string
 	WrittenGlobals map[string]bool
 }
